@@ -61,6 +61,9 @@ impl TokenParser {
     const PARSE_STEP_FLOOR: usize = 50_000;
     const MAX_EXPRESSION_DEPTH: usize = 500;
     const MAX_QUERY_DEPTH: usize = 32;
+    /// Plans nest one operator per hop and per UNION arm, and so do their iterators and `Drop`.
+    const MAX_PATTERN_HOPS: usize = 256;
+    const MAX_UNION_ARMS: usize = 256;
 
     fn new(tokens: Vec<Token>) -> Self {
         let max_parse_steps = Self::max_parse_steps_for(tokens.len());
@@ -126,8 +129,14 @@ impl TokenParser {
     fn parse_query_body(&mut self) -> Result<Query, Error> {
         let mut clauses = self.parse_single_query_clauses()?;
         let mut union_mode: Option<bool> = None;
+        let mut union_arms = 0usize;
 
         while self.match_token(&TokenType::Union) {
+            union_arms += 1;
+            if union_arms > Self::MAX_UNION_ARMS {
+                self.budget_exhausted = true;
+                return Err(Self::parser_complexity_error());
+            }
             let all = self.match_token(&TokenType::All);
             if let Some(existing) = union_mode {
                 if existing != all {
@@ -621,7 +630,13 @@ impl TokenParser {
         {
             self.advance(); // shortestPath / allShortestPaths
             self.consume(&TokenType::LeftParen, "Expected '(' after shortestPath")?;
-            let mut inner = self.parse_pattern()?;
+            self.expr_depth += 1;
+            let inner = match self.check_expression_depth(0) {
+                Ok(()) => self.parse_pattern(),
+                Err(err) => Err(err),
+            };
+            self.expr_depth -= 1;
+            let mut inner = inner?;
             self.consume(
                 &TokenType::RightParen,
                 "Expected ')' after shortestPath pattern",
@@ -640,6 +655,10 @@ impl TokenParser {
         elements.push(PathElement::Node(self.parse_node_pattern()?));
 
         while self.check_relationship_start() {
+            if elements.len() / 2 >= Self::MAX_PATTERN_HOPS {
+                self.budget_exhausted = true;
+                return Err(Self::parser_complexity_error());
+            }
             elements.push(PathElement::Relationship(
                 self.parse_relationship_pattern()?,
             ));
